@@ -147,6 +147,8 @@ append = Contract(
               "result == (old.self.size + 10, old.self.size + 11 + len(data))"},
 )
 
+append.result = T.Tuple(T.Int, T.Int)      # the (start, stop) window
+
 # frame of the exceptional exit: nothing at all may change
 append.raises[0].ensures["frame"] = (
     "all(self.data[j] == old.self.data[j] for j in range(len(self.data)))")
